@@ -104,5 +104,11 @@ func VerifC09aKeys(n int) {
 	// known: lines without a key after the last key line make ParseAuthorizedKey
 	// return "no key found", and every key is rejected
 	trailing := lastKeyLine >= 0 && lastKeyLine < lastNonEmpty
-	verifrt.Finding("C09-KF1", trailing && !got && want)
+	if trailing && !got && want {
+		verifrt.Assert(false, "a listed key is rejected because lines without a key follow the last key line (the defect repaired by the C09 fix commit is back)")
+	}
+	if got && !want {
+		verifrt.Assert(false, "a key that is not listed in the user's authorized_keys is accepted")
+	}
+	verifrt.Assert(false, "a key listed in the user's authorized_keys is rejected")
 }
